@@ -11,3 +11,7 @@ import FuraxProofs.Props.C02
 #print axioms Furax.C02.matmul_rejects
 #print axioms Furax.C02.add_sub_reject
 #print axioms Furax.C02.framework_inhabited
+#print axioms Furax.C02.matmul_den_closed
+#print axioms Furax.C02.add_den_closed
+#print axioms Furax.C02.rmul_den_closed
+#print axioms Furax.C02.truediv_den_closed
